@@ -186,6 +186,10 @@ pub fn pool(rng: &mut Rng, big: bool) -> Vec<Rec> {
     v.push(Rec { kind: "valid zero-payload zero-name", bytes: encode_63(s6, d4, b"", &[], None) });
     v.push(Rec { kind: "valid utf8 name", bytes: encode_63(s4, d4, "é✓".as_bytes(), &pay(3), None) });
     v.push(Rec { kind: "valid ::1 destination", bytes: encode_63(s6, a6("::1", 5353), b"lo", &pay(4), None) });
+    // address forms around the 11.2 rule (IPv4 = 12 zero bytes + 4 address bytes): IPv4-mapped, ::, ::2 and IPv4-compatible forms
+    v.push(Rec { kind: "valid v4-mapped destination", bytes: encode_63(s6, a6("::ffff:192.0.2.1", 53), b"m", &pay(3), None) });
+    v.push(Rec { kind: "valid v4-mapped source", bytes: encode_63(a6("::ffff:10.0.0.2", 40002), d4, b"", &pay(2), None) });
+    v.push(Rec { kind: "valid :: and ::2 endpoints", bytes: encode_63(a6("::", 1), a6("::2", 2), b"z", &pay(1), None) });
     v.push(Rec { kind: "invalid length 0", bytes: 0u32.to_be_bytes().to_vec() });
     v.push(Rec { kind: "invalid length 1", bytes: { let mut b = 1u32.to_be_bytes().to_vec(); b.push(0xee); b } });
     v.push(Rec { kind: "invalid length 36", bytes: { let mut b = 36u32.to_be_bytes().to_vec(); b.extend(pay(36)); b } });
